@@ -74,6 +74,8 @@ func runAnnotate(sc *bufio.Scanner, out *bufio.Writer) {
 	sels := map[string]bool{}
 	keys := map[string]bool{}
 	xs := map[string]bool{}
+	vcidrs := map[string]bool{}
+	vsels := map[string]bool{}
 	noteTok := func(tok string) {
 		if strings.HasPrefix(tok, "x:") {
 			xs[tok] = true
@@ -97,9 +99,32 @@ func runAnnotate(sc *bufio.Scanner, out *bufio.Writer) {
 			for _, t := range splitList(f[3], ",") {
 				noteTok(t)
 			}
-		case "selkey": // sel-mode cases
+		case "selkey", "match": // sel-mode cases
 			sels[f[1]] = true
+		case "less":
+			for _, i := range []int{3, 4, 9, 10} {
+				if i < len(f) && f[i] != "-" {
+					labelsSeen[f[i]] = true
+				}
+			}
+		case "vspec", "vupd":
+			for _, i := range []int{1, 2, 6, 7} {
+				if i < len(f) && f[i] != "|" {
+					vcidrs[f[i]] = true
+				}
+			}
+			for _, i := range []int{4, 9} {
+				if i < len(f) {
+					vsels[f[i]] = true
+				}
+			}
 		}
+	}
+	for t := range vcidrs {
+		fmt.Fprintf(out, "vcidr %s %s\n", t, vcidrTok(t))
+	}
+	for t := range vsels {
+		fmt.Fprintf(out, "vsel %s %s\n", t, vselTok(t))
 	}
 	sels["-"] = true
 	var sl []string
